@@ -287,3 +287,40 @@ Proof.
   - intros s Hs. vm_compute in Hs. destruct Hs as [<-|[<-|[]]]; vm_compute; auto 10.
   - intros jp Hjp. vm_compute in Hjp. destruct Hjp as [<-|[<-|[]]]; vm_compute; lia.
 Qed.
+
+(* END TO END incl. PROJECTED INNER indices (project_section, end to end): gathering the slices
+   computed by C01's program equals einsum_spec of the network in which ONLY the projected
+   indices are removed (proj_only), at the assignment read off idx in which every projected
+   index -- output (via full_pairs) or inner (via apply_proj) -- is fixed at its chosen value.
+   Einsum.einsum_spec n sl arr e sums over the indices that are neither removed nor output and
+   reads the removed ones from e: "a projected index contributes exactly its chosen value". *)
+Theorem C06_contract_sliced_is_einsum_projected : forall n st arr ebase l r,
+  TreeEval.wf_net n -> TreeEval.full_tree n (Node l r) -> inv (output n) st ->
+  (forall s, In s (inns (ss_sliced st)) -> si_proj s = None ->
+     si_size s = Einsum.dim n (si_ind s) /\ In (si_ind s) (Einsum.all_ix n)) ->
+  forall idx, length idx = length (output n) ->
+  (forall jp, In jp (output_pos (output n) (ss_sliced st)) ->
+     nth (snd jp) idx 0 < length (sliced_range (si_of (ss_sliced st) (fst jp)))) ->
+  tget (gather_slices (ss_sliced st) (output n) (all_slices n st arr ebase l r)) idx =
+  Einsum.einsum_spec n (slr_of (proj_only (ss_sliced st))) arr
+    (apply_proj (inns (ss_sliced st)) (epairs (full_pairs (output n) st idx) ebase)).
+Proof. exact contract_sliced_is_einsum_proj. Qed.
+Print Assumptions C06_contract_sliced_is_einsum_projected.
+
+(* non-vacuity: sliced c (output) and b (inner), PROJECTED d := 1 (inner) and a := 1 (output):
+   the hypotheses hold, the projected-only network removes exactly a and d, and the
+   assignment fixes d = 1, a = 1 *)
+Example C06_projected_nonvacuous :
+  let n := mkNet [[0;1;2]; [1;2;3]; [3;0;4]] [4;0;2] [(0,2%Z);(1,3%Z);(2,2%Z);(3,2%Z);(4,3%Z)] in
+  let st := run_ops (inputs n) (output n) [(0,2);(1,3);(2,2);(3,2);(4,3)]
+                    [OpRemove 2 None; OpRemove 1 None; OpRemove 0 (Some 1); OpRemove 3 (Some 1)] in
+  let e := apply_proj (inns (ss_sliced st)) (epairs (full_pairs (output n) st [2;0;1]) (fun _ => 0)) in
+  inv (output n) st /\
+  (forall s, In s (inns (ss_sliced st)) -> si_proj s = None ->
+     si_size s = Einsum.dim n (si_ind s) /\ In (si_ind s) (Einsum.all_ix n)) /\
+  removed (slr_of (proj_only (ss_sliced st))) = [0; 3] /\
+  map e [0;1;2;3;4] = [1; 0; 1; 1; 2].
+Proof.
+  cbn zeta. split; [apply C06_checker_sound; vm_compute; reflexivity|]. split; [|split; vm_compute; reflexivity].
+  intros s Hs Hp. vm_compute in Hs. destruct Hs as [<-|[<-|[]]]; [|discriminate Hp]. vm_compute. auto 10.
+Qed.
